@@ -101,15 +101,24 @@ def exc_name(e):
 # component spec: dict(kind='VEVENT'|'VTODO', start=value spec, end=('at', value spec)|('dur', seconds)|None,
 #                      dtstamp/lastack/snooze = None|naive utc, othermoz=bool, alarms=[alarm spec])
 
-def mk_value(v):
-    """value spec -> python value under the current provider"""
+class SubDate(date):
+    """an instance of a subclass of date is a date (time-freezing libraries, application helpers)"""
+
+
+class SubDateTime(datetime):
+    pass
+
+
+def mk_value(v, sub=False):
+    """value spec -> python value under the current provider; sub: as an instance of a subclass"""
     from icalendar.timezone import tzp
     if v is None:
         return None
     if v[0] == 'date':
-        return v[1]
+        return SubDate(v[1].year, v[1].month, v[1].day) if sub else v[1]
     if v[0] == 'float':
-        return v[1]
+        d = v[1]
+        return SubDateTime(d.year, d.month, d.day, d.hour, d.minute, d.second) if sub else d
     if v[0] == 'utc':
         return tzp.localize_utc(v[1])
     return tzp.localize(v[2], tzp.timezone(v[1]))
@@ -152,12 +161,13 @@ def fmt_dur(sec):
 def build_api(spec):
     from icalendar import Alarm, Event, Todo
     comp = Event() if spec['kind'] == 'VEVENT' else Todo()
+    sub = spec_hash(spec) % 5 == 0           # one case in five hands over subclass instances
     if spec.get('start') is not None:
-        comp.start = mk_value(spec['start'])
+        comp.start = mk_value(spec['start'], sub)
     end = spec.get('end')
     if end is not None:
         if end[0] == 'at':
-            comp.end = mk_value(end[1])
+            comp.end = mk_value(end[1], sub)
         else:
             comp.DURATION = timedelta(seconds=end[1])
     if spec.get('dtstamp') is not None:
